@@ -358,7 +358,9 @@ def check_C10_resend(tr, history, meta, rng, thorough=False):
         a = tr.obs
         want_ans = [x for x in _answer(a["steps"][j][1], op["c"]) if not x.startswith("ack")]
         want_db = chan_only(a["steps"][j][2])
-        for k in range(1, ncommit + 1):
+        # k = 0: the process dies between the previous command and this one (whatever was not yet
+        # committed is lost, the command itself never ran); k >= 1: right after its k-th commit
+        for k in range(0, ncommit + 1):
             c2 = cmax + 2000
             h2 = history[:j] + [{"op": "crash", "k": k}, op, {"op": "restart", "t": op["t"]},
                                 {"op": "connect", "c": c2},
